@@ -17,17 +17,4 @@ open Afkak.Monitor.C06
 def C06_bootstrap_no_crosstalk : Prop :=
   ∀ evs : List Afkak.Bootstrap.Ev, bootAccepts true (Afkak.Bootstrap.trace Afkak.Bootstrap.St.init evs) = true
 
-/-- Re-entrant callbacks (`Afkak/BrokerClientR.lean`): whatever the callbacks attached to request
-    Deferreds do when they fire (`close`, `disconnect`, cancel another request, make a new one), every
-    Deferred fires only after it was handed out and at most once (and is never fired a second time),
-    `ok b` only with a packet carrying its id, and every Deferred unfired when a `close()` goes ahead
-    has fired when that call is over.  NOT proved (the theorems of `AfkakProps/C06.lean` are about the
-    flat model, i.e. callbacks that do not re-enter; `C06_reentrant_model_conservative` proves that
-    the two models coincide there); evaluated on every model trace and every implementation trace of
-    every run. -/
-def C06_reentrant : Prop :=
-  ∀ (cfg : Afkak.BrokerClient.Cfg) (host port : Nat) (evs : List Afkak.BrokerClientR.EvR),
-    ∃ N, ∀ fuel, N ≤ fuel →
-      r06 (Afkak.BrokerClientR.traceRWith cfg fuel (Afkak.BrokerClientR.StR.init host port) evs) = true
-
 end Afkak.Props.C06.Open
